@@ -599,7 +599,19 @@ def multilink_cases():
                      st.lists(idx, min_size=2, max_size=3), st.lists(mk, min_size=1, max_size=3), st.lists(later, min_size=1, max_size=6), st.booleans())
 
 
+def derived_dependent_cases():
+    """datasets that get own derived attributes first, then links (which may touch the derived attributes), then mostly component
+    removals: removing the *input* of a derived attribute takes the derived attribute and every link that touches it along"""
+    mkd = st.tuples(st.just("addderived"), idx, idx, idx, fn_spec).map(list)
+    rm = st.tuples(st.just("rmcomp"), idx, idx).map(list)
+    later = st.one_of(rm, rm, rm, st.tuples(st.just("unlink"), idx).map(list), st.tuples(st.just("addcomp"), idx, idx).map(list), mkd, link_op)
+    return st.builds(lambda setup, ders, links, ops, coords: {"setup": setup, "ops": ders + links + ops, "coords": coords},
+                     st.lists(idx, min_size=2, max_size=3), st.lists(mkd, min_size=1, max_size=3), st.lists(link_op, min_size=1, max_size=4),
+                     st.lists(later, min_size=1, max_size=6), st.booleans())
+
+
 def checks(tier):
     n, m = {"quick": (2000, 25), "thorough": (20000, 40)}.get(tier, (10, 25))
     return [Check("link_histories", fn_history, strategy=cases(m), examples=n),
-            Check("multilink_histories", fn_history, strategy=multilink_cases(), examples=max(10, n // 4))]
+            Check("multilink_histories", fn_history, strategy=multilink_cases(), examples=max(10, n // 4)),
+            Check("derived_dependent_histories", fn_history, strategy=derived_dependent_cases(), examples=max(10, n // 4))]
